@@ -58,6 +58,22 @@ def run(ctx):
     for k in sorted(key_to_api):
         cases.append((True, "", k, k, "request"))
         cases.append((True, "", k, k + 100, "response"))
+    # aliasing: an implementation that packs (key, version) into one number - key*M + version, key<<b | version, a hash of the
+    # pair - answers a NON-existent pair with the entry it collides with.  Every valid entry is probed through the colliding
+    # neighbours (key -+ a, version +- a*M) for the usual radices, and through int16/int32 wrap-arounds of key and version
+    ali = []
+    for (api, ver, ty) in sorted(truth):
+        if api not in keys or ty not in ("request", "response"):
+            continue
+        k = keys[api]
+        for M in (10, 100, 1000, 10000, 256, 65536, 2**31, 2**32):
+            for a in (1, -1, 2):
+                ali.append((True, "", k - a, ver + a * M, ty))
+        for w in (2**15, 2**16, 2**31, 2**32):
+            ali.append((True, "", k, ver + w, ty)); ali.append((True, "", k, ver - w, ty)); ali.append((True, "", k + w, ver, ty)); ali.append((True, "", k - w, ver, ty))
+    if ctx["tier"] == "quick":
+        ali = r.sample(ali, min(len(ali), 6000))
+    cases += ali
     n_random = 2000 if ctx["tier"] == "quick" else 20000
     for _ in range(n_random):
         c = r.random()
@@ -76,19 +92,25 @@ def run(ctx):
 
     def impl(by_key, name, key, ver, ty):
         et = EntityType[ty]
-        try:
-            if by_key:
-                mod = index.load_payload_module(key, ver, et)
-                cls = (index.load_request_schema if ty == "request" else index.load_response_schema)(key, ver)
-            else:
-                mod = index.load_entity_module(name, ver, et)
-                cls = index.load_entity_schema(name, ver, et)
-        except index.UnknownAPIKey:
-            return -1
-        except index.UnknownEntity:
-            return -2
-        except Exception:  # noqa
-            return -3
+
+        def outcome(fn):
+            try:
+                return fn()
+            except index.UnknownAPIKey:
+                return -1
+            except index.UnknownEntity:
+                return -2
+            except Exception:  # noqa
+                return -3
+        # the module lookup and the class lookup are separate public functions: each is asked on its own
+        if by_key:
+            mod = outcome(lambda: index.load_payload_module(key, ver, et))
+            cls = outcome(lambda: (index.load_request_schema if ty == "request" else index.load_response_schema)(key, ver))
+        else:
+            mod = outcome(lambda: index.load_entity_module(name, ver, et))
+            cls = outcome(lambda: index.load_entity_schema(name, ver, et))
+        if isinstance(mod, int) or isinstance(cls, int):
+            return mod if mod == cls else -6        # one of the two found something the other did not / different errors
         if cls.__module__ != mod.__name__:
             return -4
         return idx.get(cls, -5)
